@@ -11,7 +11,7 @@ ASSUMPTIONS = [
 ]
 TRUSTED = ["pandas shift/add(fill_value=0) contracts as written on Series.shift / Series.add"]
 GENKW = dict(allow_delete=True, allow_dumps=True, same_window=True, single_zone=True, probe_fixed=True)
-ORACLES = ["sizing"]
+ORACLES = ["sizing", "sizing_after_type_change"]
 PROP = "C04"
 
 
